@@ -73,6 +73,8 @@ var Ops = map[string]Info{
 	// cons / list called by mapcar over two lists (the caller hands the same argument vector to every call), read back
 	// through car / cadr: the elements of the first / second list up to the shorter length
 	"mapcons": {Fresh, 2, true}, "maplist2": {Fresh, 2, true},
+	// a function that returns its &rest list, called by mapcar over two lists: every call must get a list of its own
+	"maprest1": {Fresh, 2, true}, "maprest2": {Fresh, 2, true},
 	"push": {Rebind, 1, true}, "pop": {Rebind, 1, false},
 	"setcar": {PointMut, 1, false}, "setnth": {PointMut, 1, false}, "setelt": {PointMut, 1, false},
 	"rplaca": {PointMut, 1, true},
@@ -387,13 +389,13 @@ func (s *State) Plan(op Op) *Plan {
 		p.Res = cp(a)
 	case "reverse":
 		p.Res = rev(a)
-	case "mapcons", "maplist2":
+	case "mapcons", "maplist2", "maprest1", "maprest2":
 		b := s.Val[op.B]
 		n := len(a)
 		if len(b) < n {
 			n = len(b)
 		}
-		if op.F == "mapcons" {
+		if op.F == "mapcons" || op.F == "maprest1" {
 			p.Res = cp(a[:n])
 		} else {
 			p.Res = cp(b[:n])
